@@ -39,7 +39,7 @@ def dumpWorld (w : World) : String :=
     s!"J {j.key.ns} {j.key.name} {st}")
   let ds := w.deploys.map (fun d => s!"D {d.key.ns} {d.key.name} {b01 d.ready}")
   let simple (tag : String) (l : List Key2) := l.map (fun k => s!"{tag} {k.ns} {k.name}")
-  let ms := w.db.map (fun p => s!"M {p.1} {dashJoin (p.2.map (fun e => hexOf e.text))}")
+  let ms := w.db.map (fun p => s!"M {p.1} {dashJoin (p.2.map (fun e => if e.metric = objMetric then hexOf e.text else hexOf e.metric ++ "@" ++ hexOf e.text))}")
   let all := es ++ ss ++ ts ++ js ++ ds ++ simple "V" w.svcs ++ simple "P" w.pvcs ++ simple "A" w.sas ++
     simple "O" w.roles ++ simple "B" w.rbs ++ ms ++ [s!"X {w.algoN}"]
   " ; ".intercalate (Ctl.sortS all)
@@ -87,8 +87,8 @@ def pSimCmd : P SimCmd := do
     let k ← pKey2; let w ← P.tok
     pure (.op (.job k (w == "succeeded")))
   | "metric" => do
-    let t ← P.tok; let text ← P.str; let key ← P.oint
-    pure (.op (.metric t text key))
+    let t ← P.tok; let text ← P.str; let key ← P.oint; let nm ← P.str
+    pure (.op (.metric t text key nm))
   | "earlystop" => do let k ← pKey2; pure (.op (.earlyStop k))
   | "deployReady" => do let k ← pKey2; pure (.op (.deployReady k))
   | "editMax" => do let k ← pKey2; let n ← P.int; pure (.op (.editMax k n))
@@ -188,7 +188,10 @@ def parseItem (cfgs : List ExpInit) (w : World) (it : List String) : Option Worl
   | ["A", ns, name] => some { w with sas := w.sas ++ [{ ns, name }] }
   | ["O", ns, name] => some { w with roles := w.roles ++ [{ ns, name }] }
   | ["B", ns, name] => some { w with rbs := w.rbs ++ [{ ns, name }] }
-  | ["M", t, l] => some { w with db := w.db ++ [(t, (dashList l).map (fun x => { metric := objMetric, text := unhex x, key := none, ts := none }))] }
+  | ["M", t, l] => some { w with db := w.db ++ [(t, (dashList l).map (fun x =>
+      match x.splitOn "@" with
+      | [n, v] => { metric := unhex n, text := unhex v, key := none, ts := none }
+      | _ => { metric := objMetric, text := unhex x, key := none, ts := none }))] }
   | ["X", n] => n.toNat?.map (fun k => { w with algoN := k })
   | [] => some w
   | _ => none
